@@ -93,6 +93,14 @@ struct FnCfg {
     /// R3h: `X.iter().any(c)` / `V.contains(&x)` become calls of the verified helpers vx_any / vx_contains
     helpers: bool,
     vec_receivers: Vec<String>,
+    /// R16: `for P in E` where the text of E starts with one of these prefixes iterates a user-defined iterator:
+    /// the loop becomes `loop { match it.next() { None => break, Some(P) => body } }` (the desugaring of `for`)
+    custom_iters: Vec<String>,
+    /// R17: `X.as_mut()` / `X.as_ref()` on these Box-typed locals becomes the reborrow `&mut *X` / `&*X`
+    box_receivers: Vec<String>,
+    /// R18: `(self.F)(args)` for an opaque closure-typed field F becomes `vx_call_F(&self.F, args)`, a function whose
+    /// contract is stated (assumed) in the unit
+    opaque_calls: Vec<String>,
 }
 
 struct R<'a> {
@@ -524,6 +532,17 @@ impl<'a> R<'a> {
         if name == "shrink_to_fit" && mc.args.is_empty() {
             self.rule("drop:capacity-hint");
             return Some("()".to_string());
+        }
+        // R17: Box::as_mut / Box::as_ref on a declared Box-typed local are reborrows
+        if (name == "as_mut" || name == "as_ref") && mc.args.is_empty() {
+            if let Expr::Path(pa) = strip_paren(&mc.receiver) {
+                if let Some(id) = pa.path.get_ident() {
+                    if self.fc.box_receivers.iter().any(|n| id == n) {
+                        self.rule("R17:box-reborrow");
+                        return Some(if name == "as_mut" { format!("(&mut *{})", id) } else { format!("(&*{})", id) });
+                    }
+                }
+            }
         }
         // R12 into -> From
         if name == "into" && mc.args.is_empty() {
@@ -1080,6 +1099,23 @@ impl<'r, 'a, 'ast> Visit<'ast> for V<'r, 'a> {
                     self.replace(e.span(), t);
                 }
             }
+            Expr::Call(c) => {
+                // R18: call of a closure stored in an opaque field
+                if let Expr::Field(f) = strip_paren(&c.func) {
+                    if let (Member::Named(id), Expr::Path(bp)) = (&f.member, strip_paren(&f.base)) {
+                        if bp.path.is_ident("self") && self.r.fc.opaque_calls.iter().any(|n| id == n) {
+                            self.r.rule("R18:opaque-closure-field-call");
+                            let mut args = vec![format!("&self.{}", id)];
+                            for a in c.args.iter() {
+                                args.push(self.r.render_expr(a));
+                            }
+                            self.replace(e.span(), format!("vx_call_{}({})", id, args.join(", ")));
+                            return;
+                        }
+                    }
+                }
+                visit::visit_expr(self, e);
+            }
             Expr::ForLoop(fl) => {
                 // a real `for` loop gets the same shape as a rewritten for_each: `for __e_k in __it_k: SRC { let PAT = __e_k; .. }`
                 let k = self.r.fresh();
@@ -1088,6 +1124,21 @@ impl<'r, 'a, 'ast> Visit<'ast> for V<'r, 'a> {
                 // same signature as the `X.for_each(..)` form of the loop, so that for <-> for_each keeps its ordinal
                 let sig = format!("for_each:{}", norm(self.r.text(fl.expr.span())));
                 self.r.loop_sigs.insert(k, sig);
+                let src_norm = norm(self.r.text(fl.expr.span()));
+                if self.r.fc.custom_iters.iter().any(|p| src_norm.starts_with(&norm(p))) {
+                    // R16: the language-level desugaring of `for` over a user-defined iterator
+                    self.r.rule("R16:for-over-custom-iterator");
+                    let save = self.r.in_foreach;
+                    self.r.in_foreach = if save > 0 { usize::MAX } else { 0 };
+                    let inner = self.r.render_block_inner(&fl.body);
+                    self.r.in_foreach = save;
+                    let t = format!(
+                        "{{ let mut __ci{k} = {ex};\n/*@PRE#{k}@*/ loop /*@INV#{k}@*/ {{ /*@TOP#{k}@*/\nlet __nx{k} = __ci{k}.next();\nmatch __nx{k} {{ None => {{ break; }} Some({pat}) => {{ /*@M:item@*/\n{inner}\n}} }}\n/*@BOT#{k}@*/ }} /*@POST#{k}@*/ }}",
+                        k = k, ex = ex, pat = pat, inner = inner
+                    );
+                    self.replace(e.span(), t);
+                    return;
+                }
                 let save = self.r.in_foreach;
                 self.r.in_foreach = if save > 0 { usize::MAX } else { 0 };
                 self.r.loop_bodies.insert(rng(fl.body.span()));
@@ -1189,6 +1240,8 @@ struct Found<'f> {
     container: String,
     kind: &'static str,
     item: FoundItem<'f>,
+    /// associated types declared by the enclosing impl: (`Item`, text of its type)
+    assoc: Vec<(String, String)>,
 }
 
 enum FoundItem<'f> {
@@ -1214,6 +1267,7 @@ fn find_item<'f>(file: &'f File, src: &str, sel: &str) -> Option<Found<'f>> {
                 if f.sig.ident == n {
                     return Some(Found {
                         container: String::new(),
+                        assoc: vec![],
                         kind: "fn",
                         item: FoundItem::Fn(&f.sig, Some(&f.block), f.span()),
                     });
@@ -1228,6 +1282,7 @@ fn find_item<'f>(file: &'f File, src: &str, sel: &str) -> Option<Found<'f>> {
                 if s.ident == n {
                     return Some(Found {
                         container: String::new(),
+                        assoc: vec![],
                         kind: "struct",
                         item: FoundItem::Struct(s),
                     });
@@ -1242,6 +1297,7 @@ fn find_item<'f>(file: &'f File, src: &str, sel: &str) -> Option<Found<'f>> {
                 if s.ident == n {
                     return Some(Found {
                         container: String::new(),
+                        assoc: vec![],
                         kind: "enum",
                         item: FoundItem::Enum(s),
                     });
@@ -1256,6 +1312,7 @@ fn find_item<'f>(file: &'f File, src: &str, sel: &str) -> Option<Found<'f>> {
                 if s.ident == n {
                     return Some(Found {
                         container: String::new(),
+                        assoc: vec![],
                         kind: "type",
                         item: FoundItem::TypeAlias(s),
                     });
@@ -1274,7 +1331,8 @@ fn find_item<'f>(file: &'f File, src: &str, sel: &str) -> Option<Found<'f>> {
                             if f.sig.ident == fnn.trim() {
                                 return Some(Found {
                                     container: header_of(t.trait_token.span(), t.brace_token.span.open()),
-                                    kind: "trait",
+                                    assoc: vec![],
+                        kind: "trait",
                                     item: FoundItem::Fn(&f.sig, f.default.as_ref(), f.span()),
                                 });
                             }
@@ -1309,7 +1367,8 @@ fn find_item<'f>(file: &'f File, src: &str, sel: &str) -> Option<Found<'f>> {
                         if f.sig.ident == fnn.trim() {
                             return Some(Found {
                                 container: header_of(im.impl_token.span(), im.brace_token.span.open()),
-                                kind: if tr.is_some() { "trait-impl" } else { "impl" },
+                                assoc: vec![],
+                        kind: if tr.is_some() { "trait-impl" } else { "impl" },
                                 item: FoundItem::Fn(&f.sig, Some(&f.block), f.span()),
                             });
                         }
@@ -1824,6 +1883,9 @@ fn main() {
             contains_as_loop: it["contains_as_loop"].as_bool().unwrap_or(false),
             helpers: it["helpers"].as_bool().unwrap_or(false),
             vec_receivers: it["vec_receivers"].as_array().map(|a| a.iter().map(|v| v.as_str().unwrap().to_string()).collect()).unwrap_or_default(),
+            custom_iters: it["custom_iters"].as_array().map(|a| a.iter().map(|v| v.as_str().unwrap().to_string()).collect()).unwrap_or_default(),
+            box_receivers: it["box_receivers"].as_array().map(|a| a.iter().map(|v| v.as_str().unwrap().to_string()).collect()).unwrap_or_default(),
+            opaque_calls: it["opaque_calls"].as_array().map(|a| a.iter().map(|v| v.as_str().unwrap().to_string()).collect()).unwrap_or_default(),
         };
         let opaque_fields: Vec<String> = it["opaque_fields"]
             .as_array()
@@ -1914,7 +1976,15 @@ fn main() {
                     Some(b) => rng(b.span()).0,
                     None => se,
                 };
-                let sig_text = apply_edits(text, fs, sig_end, sig_edits);
+                let mut sig_text = apply_edits(text, fs, sig_end, sig_edits);
+                for (an, at) in &found.assoc {
+                    // R19: `Self::Item` in a signature is the associated type declared by the enclosing impl
+                    let pat = format!("Self::{}", an);
+                    if sig_text.contains(&pat) {
+                        r.rule("R19:assoc-type-resolved");
+                        sig_text = sig_text.replace(&pat, at);
+                    }
+                }
                 let vis = match found.kind {
                     "trait-impl" | "trait" => "",
                     _ => "pub ",
